@@ -9,6 +9,10 @@
 //        Y<b>   the same without waiting: creation and run overlap with whatever the other executor threads are doing
 //        S<e>   let executor e run exactly one phase (start, one evaluation cycle, or stop) and wait until it has finished it
 //        F      release every executor to run freely and concurrently to the end
+//        W<e>   wait until executor e has finished its run
+//        G      open a GlobalContext on the main thread: the builders wired from here on take its state as their seed,
+//               and every executor copies its graph's global state back into it when its run is over (what the library's
+//               own testing harness does) - only used in histories whose runs follow one another
 //   runiso
 // stdout: the main thread's wiring log, then per executor {"e":"exec",...} followed by its trace, then {"e":"done"}.
 // The gate is GraphExecutorBuilder::phase_runner (public API): no hook is needed.
@@ -68,13 +72,25 @@ int main()
             J("iso").str("name", name).emit();
             std::vector<std::pair<int, std::optional<GraphBuilder>>> builders;   // (program index, builder)
             std::vector<std::unique_ptr<Exec>>                     execs;
+            std::unique_ptr<GlobalContext>                         ctx;
             try
             {
                 for (auto &tok : hist)
                 {
                     const char op  = tok[0];
                     const int  arg = tok.size() > 1 ? std::stoi(tok.substr(1)) : 0;
-                    if (op == 'B')
+                    if (op == 'G')
+                    {
+                        ctx = std::make_unique<GlobalContext>();
+                        J("context").emit();
+                    }
+                    else if (op == 'W')
+                    {
+                        Gate            &g = execs.at(arg)->gate;
+                        std::unique_lock lk(g.m);
+                        g.cv.wait(lk, [&] { return g.finished; });
+                    }
+                    else if (op == 'B')
                     {
                         J("build").i("b", static_cast<long>(builders.size())).i("p", arg).emit();
                         builders.emplace_back(arg, wire_scenario(*progs.at(arg)->scn));
@@ -88,7 +104,12 @@ int main()
                         Exec     *ep  = e.get();
                         Scenario *scn = progs.at(b.first)->scn.get();
                         const GraphBuilder *gb = &*b.second;
-                        e->th = std::thread([ep, scn, gb] {
+                        GlobalState *shared = ctx ? &ctx->state() : nullptr;
+                        e->th = std::thread([ep, scn, gb, shared] {
+                            if (shared != nullptr)
+                            {
+                                g_after_run = [shared](const GraphView &graph) { shared->view().copy_from(graph.global_state()); };
+                            }
                             GraphExecutorPhaseRunner runner = [ep](GraphExecutorPhase, GraphExecutorPhaseAction action) {
                                 {
                                     std::unique_lock lk(ep->gate.m);
